@@ -167,7 +167,7 @@ fn eval(c: &Case17, dir: &std::path::Path) -> Result<&'static str, (&'static str
 
 pub fn run(tier: &str) -> Run {
     let mut run = Run::new("C17", tier);
-    let thorough = tier == "thorough";
+    let thorough = crate::util::wide(tier);
     let g = corpus::grammar();
     let cases = build(&g, thorough);
     let dir = {
